@@ -91,11 +91,16 @@
 (declare-fun strlt (Str Str) Bool)
 ;;@ axiom STRLT-order trigger=strlt :: byte-wise order on strings is a strict total order
 (assert (forall ((a Str) (b Str)) (! (and (not (and (strlt a b) (strlt b a))) (=> (not (= a b)) (or (strlt a b) (strlt b a))) (not (strlt a a))) :pattern ((strlt a b)))))
-;;@ axiom SORTEDPERM-def trigger=sortedperm :: extern sort.Strings: the result range holds the same strings (as a set, and duplicate-free if the input was) in non-decreasing order
-(assert (forall ((A (Array Int Str)) (B (Array Int Str)) (lo Int) (hi Int)) (! (=> (sortedperm A B lo hi)
-  (and (forall ((c Str)) (= (exists ((k Int)) (and (<= lo k) (< k hi) (= (select B k) c))) (exists ((k Int)) (and (<= lo k) (< k hi) (= (select A k) c)))))
-       (forall ((i Int) (j Int)) (! (=> (and (<= lo i) (< i j) (< j hi)) (not (strlt (select B j) (select B i)))) :pattern ((select B i) (select B j))))
-       (=> (forall ((i Int) (j Int)) (=> (and (<= lo i) (< i j) (< j hi)) (not (= (select A i) (select A j)))))
-           (forall ((i Int) (j Int)) (! (=> (and (<= lo i) (< i j) (< j hi)) (not (= (select B i) (select B j)))) :pattern ((select B i) (select B j)))))
-       (forall ((k Int)) (! (=> (or (< k lo) (>= k hi)) (= (select B k) (select A k))) :pattern ((select B k))))))
-  :pattern ((sortedperm A B lo hi)))))
+; sortedperm(A,B,off,n): B[off..off+n) is A[off..off+n) permuted into non-decreasing byte order, nothing else changed.
+; permIdx(A,B,k) = where the element now at relative position k came from; permInv its inverse.
+(declare-fun permIdx ((Array Int Str) (Array Int Str) Int) Int)
+(declare-fun permInv ((Array Int Str) (Array Int Str) Int) Int)
+;;@ axiom SORTEDPERM-def trigger=sortedperm :: extern sort.Strings: the range is permuted (a bijection of positions) into non-decreasing order; elements outside the range are unchanged
+(assert (forall ((A (Array Int Str)) (B (Array Int Str)) (off Int) (n Int)) (! (=> (sortedperm A B off n)
+  (and (forall ((k Int)) (! (=> (and (<= 0 k) (< k n)) (and (<= 0 (permIdx A B k)) (< (permIdx A B k) n) (= (permInv A B (permIdx A B k)) k)
+                                    (= (select B (idx off k)) (select A (idx off (permIdx A B k)))))) :pattern ((select B (idx off k)))))
+       (forall ((j Int)) (! (=> (and (<= 0 j) (< j n)) (and (<= 0 (permInv A B j)) (< (permInv A B j) n) (= (permIdx A B (permInv A B j)) j)
+                                    (= (select A (idx off j)) (select B (idx off (permInv A B j)))))) :pattern ((select A (idx off j)))))
+       (forall ((i Int) (j Int)) (! (=> (and (<= 0 i) (< i j) (< j n)) (not (strlt (select B (idx off j)) (select B (idx off i))))) :pattern ((select B (idx off i)) (select B (idx off j)))))
+       (forall ((k Int)) (! (=> (or (< k off) (>= k (+ off n))) (= (select B k) (select A k))) :pattern ((select B k))))))
+  :pattern ((sortedperm A B off n)))))
